@@ -20,10 +20,14 @@ const (
 	spdDiagDom
 	spdWeak   // B^T B + 1e-3 I
 	symNonPos // symmetric with one diagonal entry <= 0: not positive definite
+	// psdExact: L*L^T with L integer unit lower triangular except for one zero
+	// diagonal entry: every operation of the factorization is exact, so the
+	// pivot at that position is exactly zero (positive semidefinite, singular).
+	psdExact
 	nSpdClasses
 )
 
-var spdNames = [...]string{"spd-gauss", "spd-int", "spd-diagdom", "spd-weak", "sym-nonpositive-diagonal"}
+var spdNames = [...]string{"spd-gauss", "spd-int", "spd-diagdom", "spd-weak", "sym-nonpositive-diagonal", "psd-exact-zero-pivot"}
 
 const nbPotrf = 64 // Ilaenv(1, DPOTRF / DTRTRI / DLAUUM)
 
@@ -55,6 +59,22 @@ func genSym(cls, n int, r *vk.SplitMix) dm {
 			a.set(i, i, s)
 		}
 		return a
+	}
+	if cls == psdExact {
+		l := eye(n)
+		for i := 0; i < n; i++ {
+			for j := 0; j < i; j++ {
+				l.set(i, j, float64(r.Intn(5)-2))
+			}
+		}
+		if n > 0 {
+			p := n - 1
+			if r.Intn(2) == 0 {
+				p = r.Intn(n)
+			}
+			l.set(p, p, 0)
+		}
+		return symGram(l.t())
 	}
 	// symNonPos: an SPD matrix whose diagonal entry p is replaced by a value <= 0.
 	a := genSPD(n, r, 1, false)
@@ -135,7 +155,7 @@ func checkChol(c cholCase) *vk.Failure {
 	vk.Class("chol:class=" + spdNames[c.Class])
 	vk.Class("chol:n=" + sizeClass(n))
 	vk.Class(fmt.Sprintf("chol:upper=%v", c.Upper))
-	if n >= 2 && (blocked || c.PadA > 0 || !c.Upper || c.Class == symNonPos) {
+	if n >= 2 && (blocked || c.PadA > 0 || !c.Upper || c.Class >= symNonPos) {
 		vk.NonTrivial("chol", n, c.PadA, c.Upper, c.Class, c.Seed)
 	}
 	vk.Sample("chol", c)
@@ -183,11 +203,13 @@ func checkChol(c cholCase) *vk.Failure {
 		return vk.Failf("lapack64-potrf-differs", "%s: wrapper result differs (ok %v vs %v)", call, ok3, ok1)
 	}
 
-	if c.Class == symNonPos && n > 0 {
+	if (c.Class == symNonPos || c.Class == psdExact) && n > 0 {
 		// a_pp <= 0: every elimination order computes a_pp minus a non-negative
 		// sum of squares, so the factorization must stop with ok=false.
+		// psdExact: all data are small integers and the factor has a unit
+		// diagonal, so the pivot is computed exactly and is exactly zero.
 		if ok1 || ok2 {
-			return vk.Failf("not-spd-not-reported", "%s / Dpotf2: matrix with a non-positive diagonal entry but ok=%v/%v", call, ok1, ok2)
+			return vk.Failf("not-spd-not-reported", "%s / Dpotf2: matrix that is not positive definite (class %s) but ok=%v/%v", call, spdNames[c.Class], ok1, ok2)
 		}
 		// Dpocon etc. are not defined; done.
 		return nil
